@@ -154,8 +154,12 @@ func newWriter(path string, max int) *Writer {
 	if err != nil {
 		panic(err)
 	}
-	return &Writer{f: f, w: bufio.NewWriterSize(f, 1<<20), max: max}
+	curWriter = &Writer{f: f, w: bufio.NewWriterSize(f, 1<<20), max: max}
+	return curWriter
 }
+
+// the trace being written (one at a time)
+var curWriter *Writer
 
 func (w *Writer) full() bool { return w.max > 0 && w.n >= w.max }
 
